@@ -11,6 +11,20 @@ NOTE = ("Trusted base: the frozen effect / identity tables in kdverif (one reaso
         "the value-level behaviour of the property (see DESIGN.md section 4, 'N' lists).")
 
 CLAIMS = {
+    "C12": ("dependence sets of generator seeds, slice-shape and dominance rules on the samplers' __iter__",
+            "Decides for ClassBalancedSampler, WeightedSampler and the repeated-augmentation path of DistributedSampler (and "
+            "RandomSampler's repeat path): every draw takes generator=<torch.Generator seeded by an expression depending on "
+            "self.seed and the attribute set_epoch writes, and on nothing rank-dependent>; no global-RNG draw; the rank "
+            "split is the strided slice [rank : total : world] followed on every path by the truncation to len(self); "
+            "__len__ = effective_length // world size; repeat_interleave(num_repeats)[:len(dataset)] dominates the rank "
+            "split; no unbound names (the padding path). Equal length / reassembly as list values is not decided."),
+    "C13": ("shape agreement and dependence sets on the composition loops of the three samplers",
+            "Decides: SemiSampler - all draws take generator=, the stream seed depends on seed, rank and epoch; position i is "
+            "labeled iff i % (L+U) < L; each branch indexes its own pool with an iterator built over the same pool; the pool "
+            "iterator yields whole permutations endlessly; the stream has len(self) positions. WeightedSampler - "
+            "multinomial(weights, effective_length, replacement=False). ClassBalancedSampler - per class the remaining "
+            "count starts at samples_per_class, each round appends pool[perm[:remaining]] with perm over len(pool) of the "
+            "same pool and decrements by the number taken. Exact counts / evenness as values are not decided."),
     "C04": ("CFG dominance / must-pass, counter typestate and normal-form comparison on InterleavedSampler._training_loop",
             "Decides on every path of _training_loop / _InterleavedBatchSampler.__iter__: set_epoch(<epoch counter>) precedes "
             "each epoch's iteration (guarded by hasattr only); sample / in-epoch / in-update counters +1 exactly once per "
